@@ -29,8 +29,13 @@ META = {
              "V_from_machines), then A1 holds, so same-round agreement of two mirrors holds with no hypothesis on correct validators' "
              "votes left (C03_mirrors_agree_same_round_composed); the bridge is shown necessary per key and store "
              "(C03_A1_needs_one_store_refuted, C03_A1_from_signer_calls_refuted). A2/A3 remain hypotheses: in gordian they are "
-             "obligations of the application's consensus strategy, which the engine does not enforce. Not mechanised: crash/restart "
-             "in the mirror composition; liveness is not claimed.",
+             "obligations of the application's consensus strategy, which the engine does not enforce. CRASHES, RESTARTS, LOCAL ACTIONS "
+             "(Properties/C03MirrorX.v): the agreement theorems are re-derived from the invariant bundle alone (chain, certificate, "
+             "good headers) and that bundle is proved over histories with crashes after every store write and restarts "
+             "(C03X_mirrors_agree_after_crashes, same-round version composed with the state machine: no hypothesis on correct "
+             "validators' votes) and, under the side condition that the state machine's own proposed header is well formed (shown "
+             "necessary: C03X_local_ph_condition_needed_refuted, two nodes committing different blocks), over histories with the "
+             "local validator's own votes and proposals. Liveness is not claimed.",
     "note": "Trusted: Coq kernel; translator for math.go (cross-checked by C18); the Go harness (network scheduler, "
             "lock-respecting strategy, Byzantine signer) and the reconstruction of model traces from observed votes; Go "
             "scheduling/timers. No axioms (all Print Assumptions: closed under the global context).",
@@ -251,6 +256,9 @@ def main(argv):
         # composed agreement theorems carry no hypothesis about correct validators' votes except unforgeability
         c.translate(only=["Gen/StepSM.v"])
         proved = c.prove("C03Compose") and proved
+        # ... and the mirror-level agreement over the larger closures: crashes after every store write, restarts, round
+        # entrances, reads and the local validator's own votes and proposed headers (Properties/C03MirrorX.v)
+        proved = c.prove("C03MirrorX") and proved
 
     mark("translate+prove")
     # 3. real engines
